@@ -328,6 +328,37 @@ def desugar_closing(modules):
     return count
 
 
+def fold_lock_blocks(modules):
+    """`X.acquire()` immediately followed by `try: B` / `finally: X.release()` (nothing else in the try statement, no arguments to either call) is
+    analysed as `with X: B`: the critical-section rules are written for the with form.  Returns the number of folded blocks."""
+    count = 0
+    for mod in modules.values():
+        for parent in ast.walk(mod.tree):
+            for field in ('body', 'orelse', 'finalbody'):
+                lst = getattr(parent, field, None)
+                if not isinstance(lst, list):
+                    continue
+                i = 0
+                while i + 1 < len(lst):
+                    a, t = lst[i], lst[i + 1]
+                    i += 1
+                    if not (isinstance(a, ast.Expr) and isinstance(a.value, ast.Call) and isinstance(a.value.func, ast.Attribute) and a.value.func.attr == 'acquire'
+                            and not a.value.args and not a.value.keywords and dotted(a.value.func.value)):
+                        continue
+                    if not (isinstance(t, ast.Try) and not t.handlers and not t.orelse and len(t.finalbody) == 1):
+                        continue
+                    r = t.finalbody[0]
+                    if not (isinstance(r, ast.Expr) and isinstance(r.value, ast.Call) and isinstance(r.value.func, ast.Attribute) and r.value.func.attr == 'release'
+                            and not r.value.args and not r.value.keywords and dotted(r.value.func.value) == dotted(a.value.func.value)):
+                        continue
+                    pos = {k: getattr(a, k) for k in ('lineno', 'col_offset') if hasattr(a, k)}
+                    pos.update(end_lineno=getattr(t, 'end_lineno', pos['lineno']), end_col_offset=getattr(t, 'end_col_offset', 0))
+                    w = ast.With(items=[ast.withitem(context_expr=a.value.func.value, optional_vars=None)], body=t.body, type_comment=None, **pos)
+                    lst[i - 1:i + 1] = [w]
+                    count += 1
+    return count
+
+
 def normalise_updates(modules):
     """`x = x + 1` (target and left operand the same side-effect-free name or attribute chain, right operand a numeric constant) is analysed as
     `x += 1`: for numbers the two are the same statement, and the counting rules are written for the augmented form.  Returns the number of
@@ -823,6 +854,7 @@ class Program:
         self.annotations_stripped = strip_annotations(self.modules)
         self.suppress_desugared = desugar_suppress(self.modules)
         self.closing_desugared = desugar_closing(self.modules)
+        self.lock_blocks_folded = fold_lock_blocks(self.modules)
         self.updates_normalised = normalise_updates(self.modules)
         self.comparisons_normalised = normalise_comparisons(self.modules)
         self.containers_normalised = normalise_empty_containers(self.modules)
